@@ -375,27 +375,35 @@ def _heavy_nc_weights_uniform(fi):
 def check_table(rep, proj, tier):
     f = proj.func("yadism.input.compatibility", "update_target")
     ev = S.Evaluator(proj)
-    # literal names the function knows
-    names = sorted({c.value for n in ast.walk(f.node) if isinstance(n, ast.Compare) for c in n.comparators
-                    if isinstance(c, ast.Constant) and isinstance(c.value, str)})
-    rep.floor("named targets", len(names), 7)
-    for name in sorted(set(names) | set(TARGETS)):
+    # candidate names: every identifier-like string literal of the module (an if/elif chain, a dispatch table, ...); a candidate the
+    # function rejects is simply not a target name
+    mod_tree = proj.module("yadism.input.compatibility").tree
+    candidates = sorted({n.value for n in ast.walk(mod_tree) if isinstance(n, ast.Constant) and isinstance(n.value, str) and n.value.isidentifier()
+                         and n.value.islower() and len(n.value) < 20})
+    names = []
+    for name in sorted(set(candidates) | set(TARGETS)):
         obs = {"TargetDIS": name}
         try:
             ev.call(S.FuncVal(ev, f), [obs], {})
         except S.Raised as r:
-            rep.bad("C12.table", f.site, f"{f.fq}[{name}]", f"documented target '{name}' is rejected: {r}", key=name)
+            if name in TARGETS:
+                rep.bad("C12.table", f.site, f"{f.fq}[{name}]", f"documented target '{name}' is rejected: {r}", key=name)
             continue
         except A.Undecided as u:
-            rep.undecided("C12.table", f.site, f"{f.fq}[{name}]", str(u), key=name)
+            if name in TARGETS:
+                rep.undecided("C12.table", f.site, f"{f.fq}[{name}]", str(u), key=name)
             continue
         got = obs["TargetDIS"]
+        if not isinstance(got, dict):
+            continue  # the candidate was passed through untouched: not a name the function knows
+        names.append(name)
         if name not in TARGETS:
             rep.undecided("C12.table", f.site, f"{f.fq}[{name}]", f"target '{name}' is not in the checker's documented table (new target?): {got}", key=name)
             continue
         z, a = TARGETS[name]
         ok = isinstance(got, dict) and set(got) == {"Z", "A"} and S.num_norm(got["Z"]) == z and S.num_norm(got["A"]) == a
         rep.check(ok, "C12.table", f.site, f"{f.fq}[{name}]", f"(Z, A) = ({z}, {a})", f"maps to {got}, documented (Z, A) = ({z}, {a})", key=name)
+    rep.floor("named targets", len(names), 7)
     # non-string passes through untouched, unknown name raises
     obs = {"TargetDIS": {"Z": A.sym("Ztarget"), "A": A.sym("Atarget")}}
     before = dict(obs["TargetDIS"])
